@@ -45,6 +45,15 @@ CHECKS = {
             'two domains in the exhaustive model; more domains/deeper hierarchies by seeded generation.',
             'TLA+ Kernel model checked by TLC (gating invariants); replay of TLC schedules; TLC trace validation of recorded hierarchical runs',
             'DESIGN.md section 4, C10'),
+    'C11': ('model_checking',
+            'TLC explores MC_Build (the construction API as a state machine: wires, primitive/structural children, ports, rename, '
+            'reparent, reparentAndRename, checkIntegrity, each with its failing twin) for all call sequences within small bounds and '
+            'checks unique names, single driver, earlier-object-survives and failure-changes-nothing-else. One call sequence per '
+            'transition of the state graph is replayed through the real constructors and exception, children, wire registrations, '
+            'drivers, sinks and the checkIntegrity verdict are compared with the specification state.',
+            'bounds <= 4 objects, <= 3 wires, <= 3 ports, <= 8 calls; Build.tla transcribes base.py/debug.py.',
+            'TLA+ Build model checked by TLC (invariants + action properties); one replayed implementation test per state-graph transition',
+            'DESIGN.md section 4, C11'),
 }
 
 PENDING = {}
